@@ -1,0 +1,22 @@
+//go:build verif
+
+// Contracts for the IAS (EPID) quote parsers (C16): memory safety on arbitrary bytes. Comment-only.
+package ias
+
+//@ func Body.UnmarshalBinary
+//@   props C16
+//@   safety bounds nil
+//@   requires b != nil
+//@   note a quote body of any length is decoded or rejected without an out-of-range access
+
+//@ func Report.UnmarshalBinary
+//@   props C16
+//@   safety bounds nil
+//@   requires r != nil
+//@   note a report of any length is decoded or rejected without an out-of-range access
+
+//@ func Quote.UnmarshalBinary
+//@   props C16
+//@   safety bounds nil
+//@   requires q != nil
+//@   note the quote inside an attestation verification report (bytes chosen by the registering node) is decoded or rejected without an out-of-range access
